@@ -1,6 +1,7 @@
 #include "sim/kernel.h"
 #include <cstdio>
 #include <cstring>
+#include <cerrno>
 
 namespace sim {
 
@@ -14,9 +15,10 @@ void Kernel::reset(int64_t epoch_ms) {
 	log.clear();
 	counters.clear();
 	violations.clear();
-	syscalls = syscalls_in_call = noprogress_in_call = 0;
+	syscalls = syscalls_in_call = noprogress_in_call = bytes_in_call = 0;
 	inconclusive = false;
 	inconclusive_why.clear();
+	errno = 0; // libksi reports stale errno values in places; make them a function of the run alone
 }
 
 uint64_t Kernel::ev(const char *fmt, ...) {
@@ -66,6 +68,7 @@ void Kernel::fail(const char *prop, const char *rule, const std::string &key, co
 void Kernel::api_begin(const char *name) {
 	syscalls_in_call = 0;
 	noprogress_in_call = 0;
+	bytes_in_call = 0;
 	(void)name;
 }
 
